@@ -271,7 +271,7 @@ def is_object_array_type(tp: Any) -> bool:
         return get_args(tp) == (Any, np.dtype[np.object_])
     if get_origin(tp) is Annotated:
         # Recursive case: strip the Annotated and check the first argument
-        array_type, _ = get_args(tp)
+        array_type, *_ = get_args(tp)  # `Annotated[Array[T], extra]` is flattened to more than 2 arguments
         return is_object_array_type(array_type)
 
     return False
